@@ -11,6 +11,7 @@ import (
 	"net/http"
 	"strconv"
 	"sync"
+	"time"
 
 	"github.com/nautilus/graphql"
 	"github.com/vektah/gqlparser/v2"
@@ -320,7 +321,9 @@ type Controller struct {
 	// Fault decides, for the n-th call (in arrival order) to a service, what happens
 	Fault func(c *Call) string
 	// Gate, when set, is called (outside the lock) after the call is logged and before it is answered
-	Gate        func(c *Call)
+	Gate func(c *Call)
+	// Delay, when set, makes the service wait (or until the context is done) before answering
+	Delay       func(c *Call) time.Duration
 	Effects     map[string]int
 	Outstanding int
 	MaxOut      int
@@ -392,6 +395,18 @@ func (s *Service) query(ctx context.Context, in *graphql.QueryInput, recv interf
 	}()
 	if gate != nil {
 		gate(&c)
+	}
+	if ctl.Delay != nil {
+		if d := ctl.Delay(&c); d > 0 {
+			select {
+			case <-time.After(d):
+			case <-ctx.Done():
+			}
+		}
+	}
+	// like a network queryer, give up when the request's context is done
+	if err := ctx.Err(); err != nil {
+		return err
 	}
 	if c.Invalid != "" {
 		return fmt.Errorf("service %s: invalid query: %s", s.Name, c.Invalid)
